@@ -31,7 +31,11 @@ PRUNING = ["SSTORE POP", "MSTORE POP", "MSTORE8 POP", "SWAP2 POP SWAP1 SSTORE", 
 # the position ranges of the ordering constraints are not empty
 ORDER = ["PUSH1 0x3 POP PUSH1 0x0 MLOAD PUSH1 0x1 PUSH1 0x0 MSTORE", "PUSH1 0x3 POP DUP1 SLOAD SWAP2 SWAP1 SSTORE", "PUSH1 0x3 POP DUP1 MLOAD SWAP2 SWAP1 MSTORE",
          "PUSH1 0x3 POP PUSH1 0x1 PUSH1 0x0 MSTORE PUSH1 0x0 MLOAD", "PUSH1 0x3 POP DUP2 DUP2 SSTORE SLOAD", "PUSH1 0x3 POP DUP1 DUP3 SSTORE SSTORE",
-         "PUSH1 0x3 POP DUP1 DUP3 MSTORE MSTORE", "PUSH1 0x3 POP DUP1 MLOAD DUP2 MSTORE8", "DUP1 MLOAD SWAP2 SWAP1 MSTORE", "DUP1 SLOAD SWAP2 SWAP1 SSTORE"]
+         "PUSH1 0x3 POP DUP1 DUP3 MSTORE MSTORE", "PUSH1 0x3 POP DUP1 MLOAD DUP2 MSTORE8", "DUP1 MLOAD SWAP2 SWAP1 MSTORE", "DUP1 SLOAD SWAP2 SWAP1 SSTORE",
+         # an operation reached twice through the ordering (store -> load -> load of the loaded key, the store ordered before both): its
+         # position window is tight
+         "SSTORE SLOAD SLOAD", "MSTORE MLOAD MLOAD", "SSTORE SLOAD SLOAD DUP1 POP", "MSTORE MLOAD MLOAD DUP1 POP", "SSTORE DUP1 SLOAD SWAP1 SLOAD",
+         "MSTORE8 MLOAD MLOAD", "SSTORE SLOAD DUP1 SLOAD ADD"]
 # a value without operands that is needed at two depths: recomputing it late is cheaper than keeping a copy, so the optimum needs the
 # instruction at a late position (tight upper position bounds remove it)
 LATE = ["CALLVALUE DUP1 ISZERO SWAP1", "ADDRESS DUP1 NOT SWAP1", "CALLER DUP1 DUP3 ADD SWAP1", "CALLVALUE DUP1 DUP3 SSTORE", "CODESIZE DUP1 DUP1 MLOAD SWAP1"]
